@@ -306,13 +306,14 @@ class Src:
         return s
 
     # ---- types / consts
-    def find_type(self, name, scope=None):
-        """struct / enum / union NAME. Returns dict(start (after attrs), kw, end_tok(inclusive))"""
+    def find_type(self, name, scope=None, deep=False):
+        """struct / enum / union NAME. Returns dict(start (after attrs), kw, end_tok(inclusive)).
+        deep=True also finds items declared inside function bodies (any brace depth)."""
         if scope is None:
             lo, hi = 0, len(self.toks)
         else:
             lo, hi = scope[0] + 1, scope[1]
-        for i in self.top_level_items(lo, hi):
+        for i in (range(lo, hi - 1) if deep else self.top_level_items(lo, hi)):
             t = self.toks[i]
             if t.kind == "ident" and t.text in ("struct", "enum") and self.toks[i + 1].text == name:
                 # find end: `;` or `{...}` or `(...) ;`
